@@ -254,35 +254,48 @@ def discharge(obligations, probes=None, timeout_ms=10000, jobs=None):
                 decided.setdefault(i, "sat")
             return ("case", i, k, res)
 
-        results_whole = {}
-        with cf.ThreadPoolExecutor(max_workers=jobs) as pool:
-            futs = [pool.submit(task_whole, it) for it in whole] + [pool.submit(task_case, it) for it in case_tasks]
-            for f in cf.as_completed(futs):
-                kind, i, k, res = f.result()
-                if kind == "whole":
-                    results_whole[i] = res
+        def _pool_run():
+            results_whole = {}
+            with cf.ThreadPoolExecutor(max_workers=jobs) as pool:
+                futs = [pool.submit(task_whole, it) for it in whole] + [pool.submit(task_case, it) for it in case_tasks]
+                for f in cf.as_completed(futs):
+                    kind, i, k, res = f.result()
+                    if kind == "whole":
+                        results_whole[i] = res
+                    else:
+                        case_res[i][k] = res
+                        if len(case_res[i]) == ncases[i] and all(v[0] == "unsat" for v in case_res[i].values()):
+                            decided.setdefault(i, "unsat")
+            for i, _, _ in whole:
+                ob = obligations[i]
+                verdict, backend, dt, raw = results_whole[i]
+                ob.time = time.time() - t_start[i] if False else dt
+                cr = case_res.get(i, {})
+                if verdict == "unsat":
+                    ob.verdict, ob.backend, ob.raw = "discharged", backend, None
+                elif cr and len(cr) == ncases[i] and all(v[0] == "unsat" for v in cr.values()):
+                    ob.verdict, ob.backend, ob.raw = "discharged", f"z3/cases({ncases[i]})", None
+                    ob.time += sum(v[2] for v in cr.values())
+                elif verdict == "sat":
+                    ob.verdict, ob.backend, ob.raw = "refuted", backend, raw
+                elif any(v[0] == "sat" for v in cr.values()):
+                    k = next(k for k, v in cr.items() if v[0] == "sat")
+                    ob.verdict, ob.backend, ob.raw = "refuted", f"{cr[k][1]}/case{k}", cr[k][3]
                 else:
-                    case_res[i][k] = res
-                    if len(case_res[i]) == ncases[i] and all(v[0] == "unsat" for v in case_res[i].values()):
-                        decided.setdefault(i, "unsat")
-        for i, _, _ in whole:
-            ob = obligations[i]
-            verdict, backend, dt, raw = results_whole[i]
-            ob.time = time.time() - t_start[i] if False else dt
-            cr = case_res.get(i, {})
-            if verdict == "unsat":
-                ob.verdict, ob.backend, ob.raw = "discharged", backend, None
-            elif cr and len(cr) == ncases[i] and all(v[0] == "unsat" for v in cr.values()):
-                ob.verdict, ob.backend, ob.raw = "discharged", f"z3/cases({ncases[i]})", None
-                ob.time += sum(v[2] for v in cr.values())
-            elif verdict == "sat":
-                ob.verdict, ob.backend, ob.raw = "refuted", backend, raw
-            elif any(v[0] == "sat" for v in cr.values()):
-                k = next(k for k, v in cr.items() if v[0] == "sat")
-                ob.verdict, ob.backend, ob.raw = "refuted", f"{cr[k][1]}/case{k}", cr[k][3]
-            else:
-                ob.verdict, ob.backend = "undecided", backend
-                ob.raw = (raw or "") + (f"; cases({ncases[i]}): " + ",".join(cr[k][0] for k in sorted(cr)) if cr else "")
+                    ob.verdict, ob.backend = "undecided", backend
+                    ob.raw = (raw or "") + (f"; cases({ncases[i]}): " + ",".join(cr[k][0] for k in sorted(cr)) if cr else "")
+        import gc
+
+        # worker threads call the z3 API only under _Z3_LOCK, but the cyclic garbage collector may run in *any* thread at any
+        # allocation and finalise z3 objects (Z3_dec_ref) while another thread is inside an API call (ctypes releases the GIL):
+        # that crashed the checker once.  No collection while the pool runs.
+        gc_was = gc.isenabled()
+        gc.disable()
+        try:
+            _pool_run()
+        finally:
+            if gc_was:
+                gc.enable()
     finally:
         shutil.rmtree(tmpdir, ignore_errors=True)
 
